@@ -315,7 +315,7 @@ func main() {
 			"RWMutex model follows sync.RWMutex: a Lock that has announced itself blocks later RLocks, so reader recursion with a waiting writer deadlocks in the model as in Go",
 			"'bounded time' is judged as: every thread finishes in every explored schedule (no deadlock, step horizon 40000)",
 		},
-		QuickBudget:    120 * time.Second,
+		QuickBudget:    300 * time.Second,
 		ThoroughBudget: 30 * time.Minute,
 	})
 }
